@@ -79,6 +79,7 @@ func EndBlocker(ctx sdk.Context, k keeper.Keeper) {
 				if !requestContext.SuperMode {
 					if err := k.DeductServiceFees(ctx, requestContext.Consumer, totalPrices); err != nil {
 						k.OnRequestContextPaused(ctx, requestContext, requestContextID, "insufficient balances")
+						requestContext.State = types.PAUSED
 					}
 				}
 
